@@ -233,6 +233,15 @@ func famReceiver(t *lc) {
 	}
 	h := t.c.Choose(nh, "receiver-history")
 	t.c.Cover("history", historyKinds[h])
+	if h == 0 {
+		ex := t.e.expansion(t.seed)
+		for _, f := range ex.derived {
+			t.c.Cover("derived-field-value", f)
+		}
+		for _, f := range ex.equalIgnores {
+			t.c.Cover("own-Equal-ignores-exported-field", f)
+		}
+	}
 	evals, bad := 0, 0
 	for _, x := range t.values() {
 		e, b := receiverValue(x, h)
@@ -269,12 +278,12 @@ func receiverValue(x *lc, h int) (evals, bad int) {
 			continue // a dirty receiver cannot be judged separately from a broken plain round trip (reported by the fresh leaf)
 		}
 		// every catalogue value of the type (the same one included) as the receiver's previous content
-		nprev := len(x.e.vals)
+		nprev := len(x.e.values(x.seed))
 		if h == 4 {
 			nprev *= nprev
 		}
 		for jk := 0; jk < nprev; jk++ {
-			j := jk % len(x.e.vals)
+			j := jk % len(x.e.values(x.seed))
 			how := "constructed as"
 			// mk builds the receiver in the state it has before the decode under test (nil: not possible); it is
 			// called again when a difference has to be attributed to a component
@@ -291,8 +300,8 @@ func receiverValue(x *lc, h int) (evals, bad int) {
 					return cp.Interface()
 				}
 			case 4:
-				k := jk / len(x.e.vals)
-				how = fmt.Sprintf("having decoded [%s] and then", x.e.vals[k].label)
+				k := jk / len(x.e.values(x.seed))
+				how = fmt.Sprintf("having decoded [%s] and then", x.e.values(x.seed)[k].label)
 				mk = func() any {
 					refk, okk := original(x.seed, x.e, k).ref(d)
 					refj, okj := original(x.seed, x.e, j).ref(d)
@@ -331,7 +340,7 @@ func receiverValue(x *lc, h int) (evals, bad int) {
 			}
 			evals++
 			n, o := x.decodeInto(d, recv, ref)
-			prev := fmt.Sprintf("receiver previously %s [%s]", how, x.e.vals[j].label)
+			prev := fmt.Sprintf("receiver previously %s [%s]", how, x.e.values(x.seed)[j].label)
 			switch {
 			case o.panicked != nil:
 				bad++
